@@ -806,6 +806,10 @@ def _cell_replace(e, c, a):
     old = cell.c[0]; cell.c[0] = a[1]; return old if 'replace' in c else UNIT
 @model('Cell::new')
 def _cell_new(e, c, a): return CellObj(a[0], 'refcell')
+@model('panic', 'panic_fmt', 'panic_explicit', 'panic_display', 'unreachable_display', 'expect_failed', 'unwrap_failed', 'assert_failed', 'panic_nounwind', 'panic_bounds_check',
+       'panic_const::panic_const_add_overflow', 'panic_const::panic_const_sub_overflow', 'panic_const::panic_const_mul_overflow', 'panic_const::panic_const_div_by_zero',
+       'panic_const::panic_const_rem_by_zero', 'panic_const::panic_const_shl_overflow', 'slice_index_order_fail', 'slice_end_index_len_fail', 'slice_start_index_len_fail', 'str::slice_error_fail')
+def _panic0(e, c, a): raise RustPanic('explicit panic: ' + strip_generics(c))
 @model('hint::unreachable_unchecked', 'panicking::panic', 'panicking::panic_fmt', 'panicking::unreachable_display', 'option::expect_failed', 'result::unwrap_failed',
        'panicking::panic_explicit', 'panicking::assert_failed', 'panicking::panic_display', 'rt::begin_panic', 'panicking::panic_nounwind')
 def _panic(e, c, a): raise RustPanic('explicit panic: ' + strip_generics(c))
